@@ -78,3 +78,19 @@ func VerifWriteEmpty(typ, key, elem uint8) (out []byte, errd bool) {
 	FreeBinaryProtocolBuffer(p)
 	return out, err != nil
 }
+
+// VerifSkipPrim runs one of the unexported skipping primitives of BinaryProtocol on (buf, rd):
+// kind 0 skipn(n), 1 skipstr(), 2 next_nopanic(n). Returns: error came back, p.Read afterwards, bytes returned (kind 2).
+func VerifSkipPrim(kind int, buf []byte, rd, n int) (errd bool, after int, ret []byte) {
+	p := &BinaryProtocol{Buf: buf, Read: rd}
+	var err error
+	switch kind {
+	case 0:
+		err = p.skipn(n)
+	case 1:
+		err = p.skipstr()
+	default:
+		ret, err = p.next_nopanic(n)
+	}
+	return err != nil, p.Read, ret
+}
